@@ -120,7 +120,19 @@ fn make_seed(i: u64, rng: &mut Rng) -> Option<Seed> {
     if i % 8 == 7 {
         q = 1 + (i as usize / 8) % 2;
     }
-    options = ProofOptions::new(q, options.blowup_factor(), if i % 5 == 0 && i % 8 != 7 { 4 } else { 0 }, ext, options.to_fri_options().folding_factor(), options.to_fri_options().remainder_max_degree());
+    // every fourth seed: a remainder of 16 or 8 coefficients where the schedule allows it - more coefficients
+    // than final query positions leave room for the position-aware remainder substitutions
+    let mut rem_deg = options.to_fri_options().remainder_max_degree();
+    if i % 4 == 3 {
+        let lde = shape.n() * options.blowup_factor();
+        for cand in [15usize, 7] {
+            if wfv::frih::schedule_well_formed(lde, &winter_fri::FriOptions::new(options.blowup_factor(), options.to_fri_options().folding_factor(), cand)) {
+                rem_deg = cand;
+                break;
+            }
+        }
+    }
+    options = ProofOptions::new(q, options.blowup_factor(), if i % 5 == 0 && i % 8 != 7 { 4 } else { 0 }, ext, options.to_fri_options().folding_factor(), rem_deg);
     let (cols, values) = stark::gen_trace(fd, &shape, rng, TraceKind::Random);
     let inst = Instance { fd, hs, shape, options, cols, values };
     let proof = match stark::prove(&inst, false) {
@@ -156,7 +168,7 @@ fn query_positions(seed: &Seed) -> Option<Vec<usize>> {
 }
 
 /// honest remainder + c * prod (x - x_q) over the final (folded) query points, re-encoded
-fn remainder_plus_vanishing<B: Fld, E: FieldElement<BaseField = B>>(seed: &Seed, rng: &mut Rng, positions: &[usize]) -> Option<Vec<u8>> {
+fn remainder_plus_vanishing<B: Fld, E: FieldElement<BaseField = B>>(seed: &Seed, rng: &mut Rng, positions: &[usize]) -> Option<Vec<(&'static str, Vec<u8>)>> {
     let o = &seed.inst.options;
     let lde = seed.inst.shape.n() * o.blowup_factor();
     let fo = o.to_fri_options();
@@ -179,17 +191,39 @@ fn remainder_plus_vanishing<B: Fld, E: FieldElement<BaseField = B>>(seed: &Seed,
     for (k, zc) in z.iter().enumerate() {
         r[k] += c * *zc;
     }
-    let mut rb = Vec::new();
-    for e in &r {
-        e.write_into(&mut rb);
+    // the other direction: the remainder reduced modulo the vanishing polynomial, i.e. the lowest-degree
+    // polynomial through the queried points (zero-padded to the committed length)
+    let q = xs.len();
+    let mut low = rem.clone();
+    for k in (q..low.len()).rev() {
+        let lead = low[k];
+        if lead != E::ZERO {
+            for j in 0..=q {
+                low[k - q + j] -= lead * z[j];
+            }
+        }
     }
     let (a, b) = seed.map.fri_remainder;
-    if rb.len() != b - a {
+    let mut outs = Vec::new();
+    for (what, poly) in [("position-aware:remainder+c*vanishing(queried points)", r), ("position-aware:remainder-mod-vanishing(interpolant through the queried points)", low)] {
+        if poly == rem {
+            continue;
+        }
+        let mut rb = Vec::new();
+        for e in &poly {
+            e.write_into(&mut rb);
+        }
+        if rb.len() != b - a {
+            continue;
+        }
+        let mut out = seed.bytes.clone();
+        out[a..b].copy_from_slice(&rb);
+        outs.push((what, out));
+    }
+    if outs.is_empty() {
         return None;
     }
-    let mut out = seed.bytes.clone();
-    out[a..b].copy_from_slice(&rb);
-    Some(out)
+    Some(outs)
 }
 
 fn hex(b: &[u8]) -> String {
@@ -417,9 +451,11 @@ fn case(i: u64, rng: &mut Rng, st: &mut State, quick: bool) {
             (Fd::F128, _) => remainder_plus_vanishing::<B128, QuadExtension<B128>>(&seed, rng, &pos),
         };
         match sub {
-            Some(bytes) => {
-                st.count("mutants.remainder_plus_vanishing_polynomial_of_queried_points");
-                judge(st, &seed, &canon_orig, &Mutant { class: "position-aware:remainder+c*vanishing(queried points)".into(), bytes });
+            Some(list) => {
+                for (what, bytes) in list {
+                    st.count(if what.contains("mod-vanishing") { "mutants.remainder_reduced_to_interpolant_of_queried_points" } else { "mutants.remainder_plus_vanishing_polynomial_of_queried_points" });
+                    judge(st, &seed, &canon_orig, &Mutant { class: what.into(), bytes });
+                }
             },
             None => st.count("skipped.no_room_for_position_aware_remainder"),
         }
